@@ -243,26 +243,33 @@ Definition to_base64_bytes (bs : list N) : list N :=
    non-strict mode (trailing bits are not checked) *)
 Definition strip_nl (s : list N) : list N := filter (fun c => negb ((c =? 10) || (c =? 13))%N) s.
 Fixpoint b64_decode_q (s : list N) : option (list N) :=
-  (match s with
-   | [] => Some []
-   | [a; b; 61; 61] =>
-       match b64_val a, b64_val b with
-       | Some x, Some y => Some [(x * 4 + y / 16) mod 256]
-       | _, _ => None
-       end
-   | [a; b; c; 61] =>
-       match b64_val a, b64_val b, b64_val c with
-       | Some x, Some y, Some z => Some [(x * 4 + y / 16) mod 256; ((y mod 16) * 16 + z / 4) mod 256]
-       | _, _, _ => None
-       end
-   | a :: b :: c :: d :: r =>
-       match b64_val a, b64_val b, b64_val c, b64_val d, b64_decode_q r with
-       | Some x, Some y, Some z, Some w, Some t =>
-           Some ((x * 4 + y / 16) mod 256 :: ((y mod 16) * 16 + z / 4) mod 256 :: ((z mod 4) * 64 + w) mod 256 :: t)
-       | _, _, _, _, _ => None
-       end
-   | _ => None
-   end)%N.
+  match s with
+  | [] => Some []
+  | a :: b :: c :: d :: r =>
+      if (d =? 61)%N then
+        (* padding is only accepted in the last quantum *)
+        match r with
+        | [] =>
+            if (c =? 61)%N then
+              match b64_val a, b64_val b with
+              | Some x, Some y => Some [(x * 4 + y / 16) mod 256]%N
+              | _, _ => None
+              end
+            else
+              match b64_val a, b64_val b, b64_val c with
+              | Some x, Some y, Some z => Some [(x * 4 + y / 16) mod 256; ((y mod 16) * 16 + z / 4) mod 256]%N
+              | _, _, _ => None
+              end
+        | _ :: _ => None
+        end
+      else
+        match b64_val a, b64_val b, b64_val c, b64_val d, b64_decode_q r with
+        | Some x, Some y, Some z, Some w, Some t =>
+            Some ((x * 4 + y / 16) mod 256 :: ((y mod 16) * 16 + z / 4) mod 256 :: ((z mod 4) * 64 + w) mod 256 :: t)%N
+        | _, _, _, _, _ => None
+        end
+  | _ => None
+  end.
 Definition from_base64_bytes (s : list N) : option (list N) := b64_decode_q (strip_nl s).
 
 (* ---------- positional numbers (strconv.FormatUint / ParseUint) ---------- *)
